@@ -118,6 +118,11 @@ fn kv_line(t: &mut Tape, key: &str, class: usize) -> String {
         10 => "\u{a0}",
         _ => "\u{b}",
     };
+    // characters that look like the separator but are not: such a line has no (ASCII) colon of its own
+    if t.chance(3) {
+        let fake = *t.pick(&["\u{ff1a}", "\u{fe55}", "\u{2236}", "\u{a789}", "=", " ", "\u{ff1a} "]);
+        return format!("{pre}{key}{mid}{fake}{sp}{v}");
+    }
     format!("{pre}{key}{mid}:{sp}{v}")
 }
 
@@ -126,6 +131,8 @@ const FILES: &[&str] = &[
     "\"sub\\dir\\bg.jpg\"", "", "\"a b.jpeg\"", "x.wmv", "\"mpg\"",
     // names whose length changes under case mapping (Kelvin sign 3 -> 1 byte, dotted capital I 2 -> 3, sharp S)
     "\"\u{212a}\u{212a}.avi\"", "\"\u{130}\u{130}.AVI\"", "\"\u{1e9e}.Mp4\"", "\"\u{212a}.png\"", "\u{212a}\u{212a}\u{212a}",
+    // a slash directly next to a backslash (the order of "collapse doubled separators" and "standardise" matters)
+    "\"sb/\\bg.png\"", "\"a\\/b.jpg\"", "\"a\\\\/b\"", "\"x/\\\\y.png\"", "\"/\\\"",
     // names that are non-empty but blank, or padded
     "\" \"", " ", "\t", "\"\u{3000}\"", "\" bg.jpg\"", " \"bg2.jpg\" ", "\"\t\"",
 ];
